@@ -293,6 +293,7 @@ func plainDefs() []plainDef {
 //	            connection in use with SetConnection before the operation (what a
 //	            reconnecting caller does): cancellation must act on the connection the
 //	            operation is blocked on, not on the one the stream was born with
+//	"enc_setconn" both
 //	"imported"  keyed, and the stream under test was re-created from exported crypto state
 //	            (NewStreamWithCryptoState), as after a hand-off to another process
 func plainShape(d plainDef, flavour string, deep bool) *shape {
@@ -300,14 +301,14 @@ func plainShape(d plainDef, flavour string, deep bool) *shape {
 	if flavour != "" {
 		name += "_" + flavour
 	}
-	enc := d.enc || flavour == "enc" || flavour == "imported"
+	enc := d.enc || flavour == "enc" || flavour == "imported" || flavour == "enc_setconn"
 	return &shape{Name: name, Role: "plain", Deep: deep, Dir: d.dir, Repeatable: d.dir == "r" || d.dir == "w", prepare: func(e *env) (*inst, error) {
 		sc, mine, theirs, closeLink, cleanup, err := link(true)
 		if err != nil {
 			return nil, err
 		}
 		var a *stream.Stream
-		if flavour == "setconn" {
+		if flavour == "setconn" || flavour == "enc_setconn" {
 			old1, old2 := net.Pipe()
 			a = stream.NewStream(old1)
 			a.SetConnection(mine)
@@ -565,6 +566,7 @@ func allShapes(e *env, thorough bool) []*shape {
 		add(d, "setconn")
 		if !d.enc {
 			add(d, "enc")
+			add(d, "enc_setconn")
 			add(d, "imported")
 		}
 	}
